@@ -199,7 +199,7 @@ func runCheck(repo, verif, prop, tier string, seed int, timeout time.Duration, s
 		}
 		rep.VC.obls = keepO
 	}
-	solveReports(reps, scratch, timeout, 12)
+	solveReports(reps, scratch, timeout, 8)
 	for _, rep := range reps {
 		if rep.Err != nil {
 			continue
